@@ -17,3 +17,24 @@ func VerifNewConn(conn net.Conn) *Conn {
 		},
 	}
 }
+
+// VerifAddConn registers a connection exactly the way StartStratum does after Accept (same Conn value, same
+// map key), without a listener and without handing it to NewConnections: the caller runs the connection
+// handler itself (blockchain.VerifHandleStratumConn).
+func (s *Server) VerifAddConn(conn net.Conn) *Conn {
+	c := VerifNewConn(conn)
+	s.Lock()
+	if s.conns == nil {
+		s.conns = make(map[string]*Conn)
+	}
+	s.conns[conn.RemoteAddr().String()] = c
+	s.Unlock()
+	return c
+}
+
+// VerifNumConns returns the number of registered connections.
+func (s *Server) VerifNumConns() int {
+	s.RLock()
+	defer s.RUnlock()
+	return len(s.conns)
+}
